@@ -8,8 +8,11 @@ from .values import parse_kind
 
 
 class Model:
-    def __init__(self, name, fields, builtin=False, bases=(), dynamic=None):
+    def __init__(self, name, fields, builtin=False, bases=(), dynamic=None, open_attrs=False):
         self.name = name
+        # open_attrs: attribute names outside the model may exist on the object (hasattr with a literal unknown name is an
+        # uninterpreted predicate instead of an unsupported construct)
+        self.open_attrs = open_attrs
         self.fields = OrderedDict((k, parse_kind(v)) for k, v in (fields or {}).items())
         self.builtin = builtin
         self.bases = list(bases)
@@ -124,15 +127,17 @@ class Registry:
         self.kind_hints: dict = {}
 
     # the functions below are what spec files use -------------------------------------
-    def model(self, name, fields=None, builtin=False, bases=(), dynamic=None):
+    def model(self, name, fields=None, builtin=False, bases=(), dynamic=None, open_attrs=None):
         if name in self.models:
             m = self.models[name]
+            if open_attrs is not None:
+                m.open_attrs = open_attrs
             for k, v in (fields or {}).items():
                 m.fields[k] = parse_kind(v)
             for k, v in (dynamic or {}).items():
                 m.dynamic[k] = parse_kind(v)
             return m
-        m = Model(name, fields, builtin, bases, dynamic)
+        m = Model(name, fields, builtin, bases, dynamic, bool(open_attrs))
         self.models[name] = m
         return m
 
